@@ -59,6 +59,22 @@ STAR = ['from os.path import *\n{P}', '{P}\ndef star_function():\n    pass\nfrom
         '{P}\nfrom os import path, sep\nfrom . import *\n']
 
 
+EVERY_BINDING = scopegen.EVERY_BINDING
+
+
+def every_binding_programs():
+    out = []
+    for tname in sorted(TRIGGERS):
+        for pname in ('module_end', 'module_stmt', 'in_function', 'lambda_body', 'class_body'):
+            out.append(('%s@%s:every-binding' % (tname, pname), POSITIONS[pname].format(T=TRIGGERS[tname], P=EVERY_BINDING), EVERY_BINDING))
+    for i, st in enumerate(STAR):
+        out.append(('star%d:every-binding' % i, st.format(P=EVERY_BINDING), EVERY_BINDING))
+    # the trigger inside each of the lambdas
+    for tname in ('eval_call', 'locals_call', 'vars_call', 'exec_ref'):
+        out.append(('%s@in-star-lambda:every-binding' % tname, EVERY_BINDING.replace('(lambda_rest, lambda_others)', '(lambda_rest, lambda_others, %s)' % TRIGGERS[tname]), EVERY_BINDING))
+    return out
+
+
 # the trigger name is also bound or declared somewhere, yet the builtin is what runs (or may run)
 REBOUND = {
     'global-declared-never-assigned': 'def trigger_function(code_text):\n    global {N}\n    long_local_name = 5\n    return {N}, long_local_name, long_local_name\n{P}',
@@ -172,6 +188,7 @@ def run(ctx):
     osets = osets + [('locals+preserve', dict(rename_locals=True, preserve_locals=['first_param', 'unrelated_name'])),
                      ('all+preserve', dict(rename_locals=True, rename_globals=True, hoist_literals=True, preserve_globals=['trigger_function', 'unrelated_name'], preserve_locals='first_param'))]
     run_programs(ctx, progs, osets, 'generated')
+    run_programs(ctx, every_binding_programs(), osets, 'every-binding-form')
     run_programs(ctx, [(i, p, b) for i, p, b, _k in rebound_programs()], osets, 'rebound-trigger-names')
     run_programs(ctx, class_rebound_programs(), osets, 'class-rebound-trigger-names')
     control_group(ctx)
